@@ -40,7 +40,9 @@ def z3_diff(name, new, base, timeout_s=150):
         return "unknown", None
     neq = " ".join(f"(distinct {x} {y})" for x, y in zip(a, b))
     # carries are 0 or 1 wherever the crate calls these functions (`cadd_carry_le`): look for API-realisable differences
-    pre = "".join(f"(assert (bvule {n} (_ bv1 {w})))\n" for n, w in new["params"] if n == "carry")
+    # exception: the schoolbook multiplication calls `cadd(product.0, carry)` with a full-word running carry, so for `cadd` the
+    # carry is left unconstrained (seeded change C01-n: a carry-out of `(c1 | c2)` instead of `c1 + c2`, equal for carries <= 1)
+    pre = "".join(f"(assert (bvule {n} (_ bv1 {w})))\n" for n, w in new["params"] if n == "carry" and not name.endswith("_cadd"))
     q = f"(set-logic QF_BV)\n{decl}{pre}(assert (or {neq}))\n(check-sat)\n(get-model)\n"
     out = ""
     for cmd in (["cvc5", "--produce-models", f"--tlimit={timeout_s * 1000}"], ["z3", "-in", f"-T:{timeout_s}"]):
@@ -67,7 +69,7 @@ def z3_diff(name, new, base, timeout_s=150):
     return "unknown", None
 
 
-TYPES2 = {"u8": ("F8x3", 8, 3), "u16": ("F16x5", 16, 5), "u32": ("F32x3", 32, 3), "u64": ("F64x5", 64, 5), "u128": ("F128x3", 128, 3), "usize": ("FU64x3", 64, 3)}
+TYPES2 = {"u8": ("F8x3", 8, 3), "u16": ("F16x5", 16, 5), "u32": ("F32x3", 32, 3), "u64": ("F64x5", 64, 5), "u128": ("F128x3", 128, 3), "usize": ("FU64x5", 64, 5)}
 # which generated functions a property's operations go through
 RELEVANT = {"C01": ("mask", "cadd", "csub", "wmul"), "C02": ("mask", "csub")}
 
@@ -89,6 +91,16 @@ def api_lines(name, cex, prop="C01"):
                 lines.append(f"mul {dbg} {vec([a, 1], n * w)} {vec([b, 1], n * w)} {form}")
         elif fn in ("cadd", "csub"):
             a, r, c = cex.get("self_", 0), cex.get("rhs", 0), cex.get("carry", 0)
+            if prop == "C01" and fn == "cadd" and c > 1:
+                # a full-word carry reaches `cadd` only inside the multiplication: products of vectors whose words are drawn from the
+                # counterexample words and their neighbours (deterministic), full length so that no carry is cut off early
+                import random as _r
+                rng = _r.Random(a * 31 + r * 17 + c)
+                pool = [a, r, c, top, top - 1, 1, 2, 0, (a + 1) & top, (r + 1) & top]
+                for _ in range(300):
+                    x = [rng.choice(pool) for _ in range(n)]
+                    y = [rng.choice(pool) for _ in range(n)]
+                    lines.append(f"mul {dbg} {vec(x, n * w)} {vec(y, n * w)} {rng.choice(['vv', 'ar'])}")
             if prop == "C01":
                 op = "add" if fn == "cadd" else "sub"
                 lo = ([top, 1] if fn == "cadd" else [0, 1]) if c else [0, 0]
